@@ -34,6 +34,7 @@ type profile struct {
 	noOptArg                   bool
 	fillerPairs                bool
 	scaffoldFilter             func(name string) bool
+	manyLate                   bool // the large families run after the subset spaces (checks whose oracle is heavy on large tries)
 	revSweep                   bool // every oracle a second time on the same instance in reverse order (lists <= revMaxQs queries)
 }
 
@@ -364,7 +365,7 @@ func buildPhases(r *h.Run, p profile) []phase {
 
 	mk := func(base []string) func(sc *h.Scaffolded, small bool) *inputSpec {
 		return func(sc *h.Scaffolded, small bool) *inputSpec {
-			u := &inputSpec{sc: sc, opts: opts, insts: p.insts, zig: p.zig && thorough, nilVals: p.nilVals, noOptArg: p.noOptArg}
+			u := &inputSpec{sc: sc, opts: opts, insts: p.insts, zig: p.zig && thorough, nilVals: p.nilVals, noOptArg: p.noOptArg, sharedOnlyC: p.needQs}
 			// the full 16 option combinations, the no-Opt call form and the
 			// proto.Unmarshal instance on the smaller sets; the 8 combinations
 			// that differ after normalisation and {fresh, Unmarshal} beyond.
@@ -916,6 +917,13 @@ func buildPhases(r *h.Run, p profile) []phase {
 		switch ph.name {
 		case "shift-sweep", "step-sweep", "tail-sweep", "length-tuples", "shape-sweep":
 			first = append(first, ph)
+		case "many", "large-short-fillers:K(U21,1)":
+			// cheap for the lookup oracles (seconds), heavy for the scan oracle
+			if p.manyLate {
+				rest = append(rest, ph)
+			} else {
+				first = append(first, ph)
+			}
 		default:
 			rest = append(rest, ph)
 		}
